@@ -90,7 +90,16 @@ macro_rules! impl_mx1 { ($I:ty, $s:expr) => {
         fn mk(e: &[i64]) -> Self { Var3::from((e.get(0).cloned().unwrap_or(0) as $I, e.get(1).cloned().unwrap_or(0) as $I, e.get(2).cloned().unwrap_or(0) as $I)) }
         fn exps(&self) -> Vec<i64> { let d = self.deg(); vec![d.0 as i64, d.1 as i64, d.2 as i64] } }
     impl MX for MultiVar<'x', $I> { const NV: usize = 5; const SIGNED: bool = $s;
-        fn mk(e: &[i64]) -> Self { MultiVar::from_iter(e.iter().enumerate().map(|(i, d)| (i, *d as $I))) }
+        fn mk(e: &[i64]) -> Self {
+            // monomials in at most one variable go through the (index, exponent) constructor when the exponent is zero or odd
+            // (x_i^0 must be the monomial 1), everything else through from_iter
+            let nz: Vec<usize> = (0..e.len()).filter(|i| e[*i] != 0).collect();
+            match nz.len() {
+                0 => MultiVar::from((e.len() % 4, 0 as $I)),
+                1 if e[nz[0]] % 2 != 0 => MultiVar::from((nz[0], e[nz[0]] as $I)),
+                _ => MultiVar::from_iter(e.iter().enumerate().map(|(i, d)| (i, *d as $I))),
+            }
+        }
         fn exps(&self) -> Vec<i64> { let d = self.deg(); let n = d.max_index().map(|m| m + 1).unwrap_or(0); (0..n).map(|i| d[i] as i64).collect() }
         fn stores_zero_exponent(&self) -> bool { self.deg().iter().any(|(_, d)| *d == 0) } }
 } }
